@@ -544,6 +544,33 @@ def cdf_diag_identity(seed):
                         return ev, dict(what="%s with residual-flexibility modes given as %s%s differs from the same system renumbered with the rf modes last"
                                         % (cls_.__name__, np.asarray(rfarg).tolist(), " and nonlinear terms" if nl else ""), matrices="full" if full else "diagonal",
                                         max_difference=float(max(abs(g_ - r_).max() for g_, r_ in zip(got5, ref5))))
+    # memory layout of the matrices (C order, Fortran order as read from op4 / Matlab files, transposed views, slices of larger arrays) is not part of the problem:
+    # same solution, and the caller's matrices are not modified
+    Ml = np.array([[2.0, 0.3, 0.0], [0.3, 1.5, 0.2], [0.0, 0.2, 3.0]])
+    Kl = np.array([[90.0, -30.0, 0.0], [-30.0, 60.0, -20.0], [0.0, -20.0, 45.0]])
+    Bl = np.array([[0.9, -0.2, 0.0], [-0.1, 0.6, -0.1], [0.0, -0.3, 0.4]])
+    tl = np.arange(0, 0.2, 0.002)
+    Fl = np.vstack((np.sin(9 * tl), np.cos(5 * tl) - 1, 0.3 * tl))
+    big = lambda A: np.pad(A, ((1, 2), (2, 1)))[1:-2, 2:-1]
+    layouts = {"C": lambda A: np.ascontiguousarray(A), "F": lambda A: np.asfortranarray(A), "transposed view": lambda A: np.ascontiguousarray(A.T).T, "slice of a larger array": big}
+    for cls_, kw_ in ((ode.SolveNewmark, {}), (ode.SolveCDF, {}), (ode.SolveUnc, {}), (ode.SolveExp2, {})):
+        ref_l = None
+        for lname, lay in layouts.items():
+            for which in ("all", "b only"):
+                mats = [lay(A) if (which == "all" or nm_ == "b") else A.copy() for nm_, A in (("m", Ml), ("b", Bl), ("k", Kl))]
+                if cls_ is ode.SolveCDF:
+                    # SolveCDF: uncoupled mass and stiffness, coupled damping
+                    mats[0], mats[2] = np.diag(Ml).copy(), np.diag(Kl).copy()
+                keep = [A.copy() for A in mats]
+                so_ = cls_(mats[0], mats[1], mats[2], 0.002, **kw_).tsolve(Fl)
+                ev += 1
+                if not all(np.array_equal(A, A0) for A, A0 in zip(mats, keep)):
+                    return ev, dict(what="%s modified the caller's matrices (layout: %s)" % (cls_.__name__, lname))
+                if ref_l is None:
+                    ref_l = so_
+                elif not all(np.allclose(getattr(so_, q_), getattr(ref_l, q_), rtol=1e-9, atol=1e-9 * abs(getattr(ref_l, q_)).max()) for q_ in "dva"):
+                    return ev, dict(what="%s: the solution depends on the memory layout of the matrices (%s, %s) - differs from C-ordered input by %.3g"
+                                    % (cls_.__name__, lname, which, abs(so_.d - ref_l.d).max()), layout=lname)
     r = [errs["newmark"][i] / errs["newmark"][i + 1] for i in range(2)]
     if not all(x > 1.7 for x in r):
         return ev, dict(what="SolveNewmark error does not shrink under step halving", ratios=r, errors=errs["newmark"])
